@@ -99,6 +99,11 @@ void run(Ctx &ctx) {
     }
     for (auto &r : refs) { if (ctx.expired()) break; if (!ctx.mine(idx++)) continue; for (size_t bi = 0; bi < bases.size(); bi += (sz == 2 ? 1 : 4)) { d.two(r, bases[bi], 0, 0); d.two(r, bases[bi], 0, 1); } }
     for (auto &s : shape) { if (ctx.expired()) break; if (!ctx.mine(idx++)) continue; for (auto &b : { "s://h/a/b?q", "s:/a/b", "s:a", "t://g", "a" }) { d.two(s, b, 1, 0); d.two(s, b, 1, 1); d.two(b, s, 1, 0); } }
+    // reference creation over path-token sequences (segments with a colon, empty segments, shared directories): the guards that look
+    // inside a segment (':' scan, emptiness) run on characters in one API and must not run on bytes in the other
+    { std::vector<Str> tk = { "", "a", "b", "c:d", "long-segment:with-colon", "..", "." }; std::vector<Str> ab = path_token_paths(tk, sz == 0 ? 2 : 3, 1);
+      for (auto &p0 : ab) for (auto pre : { "s:", "s://h" }) { if (!ctx.mine(idx++)) continue; if (ctx.expired()) break; Str src = Str(pre) + p0; if (!ref::is_uri_reference(src)) continue;
+          for (auto b0 : { "/a/b", "/a/", "/", "/a/c:d/x", "/b" }) { Str bs = Str(pre) + b0; d.two(src, bs, 1, 0); d.two(src, bs, 1, 1); } } }
     for (auto &s : norm) { if (ctx.expired()) break; if (!ctx.mine(idx++)) continue; for (unsigned m : { 63u, 8u, 4u, 1u, 2u, 48u, 0u }) for (int o = 0; o < 2; o++) d.normalize(s, m, o); }
     all_strings(ctx, Str("a +%\r\n\xff~", 8), ctx.secondary ? 3 : q ? 4 : 5, [&](const Str &s) { for (int p = 0; p < 2; p++) for (int n = 0; n < 2; n++) d.escape(s, p, n); });
     all_strings(ctx, Str("%0aAdg+\r\n", 9), ctx.secondary ? 3 : q ? 5 : 6, [&](const Str &s) { for (int p = 0; p < 2; p++) for (int m = 0; m < 4; m++) d.unescape(s, p, m); });
